@@ -36,7 +36,7 @@ def floors(tier):
 
 def plan(tier, seed):
     if tier == "quick":
-        n, per = 16, 1000
+        n, per = 16, 1600
     else:
         n, per = 64, 24000
     return [{"seed": seed, "shard": i, "per": per, "tier": tier} for i in range(n)]
